@@ -339,6 +339,7 @@ def main():
         cov['samples'] = (b.get('samples') or [])[:3] or ['(none)']
     cov['unverified'] = info.get('unverified', [])
     ev['violations'] = len(violations)
+    ev['violation_signatures'] = [v[0] for v in violations][:200]
     ev['known_findings_reported'] = hits
     ev['wall_s'] = round(time.time() - t0, 2)
     os.makedirs(os.path.join(ROOT, 'evidence'), exist_ok=True)
@@ -346,7 +347,10 @@ def main():
         json.dump(ev, f, indent=1, default=str)
     for h in hits:
         print(f'KNOWN-FINDING: property={prop} {h}')
-    for sig, path, suffix in violations:
+    for n, (sig, path, suffix) in enumerate(violations):
+        if n == 25:
+            print(f'  ... {len(violations) - 25} more violations (all listed in the evidence/replay files)')
+            break
         print(f'  failed: {sig}')
         print(f'VIOLATION property={prop} replay={path}{suffix}')
     print(f'{prop}: obligations={cov.get("obligations", 0)} discharged={cov.get("discharged", 0)} '
